@@ -380,6 +380,122 @@ def r7(ctx, prog):
     ctx.ob('C13.R7', SC + '|history-writers', pushers == {T + '::onEnterKey'}, 'history is only appended by onEnterKey: %s' % sorted(pushers))
 
 
+# reference encodings of the keys the line editor acts on (xterm ctlseqs / VT220: CSI A-D arrows, CSI n ~ editing keypad and function keys)
+KEY_REF = {
+    (0x09,): 'kTab', (0x7f,): 'kBackspace', (0x08,): 'kBackspace', (0x0a,): 'kEnter', (0x0d, 0x00): 'kEnter', (0x0d, 0x0a): 'kEnter',
+    (0x1b, 0x5b, 0x41): 'kMoveUp', (0x1b, 0x5b, 0x42): 'kMoveDown', (0x1b, 0x5b, 0x43): 'kMoveRight', (0x1b, 0x5b, 0x44): 'kMoveLeft',
+    (0x1b, 0x5b, 0x31, 0x7e): 'kHome', (0x1b, 0x5b, 0x32, 0x7e): 'kInsert', (0x1b, 0x5b, 0x33, 0x7e): 'kDelete', (0x1b, 0x5b, 0x34, 0x7e): 'kEnd',
+    (0x1b, 0x5b, 0x35, 0x7e): 'kPageUp', (0x1b, 0x5b, 0x36, 0x7e): 'kPageDown',
+    (0x1b, 0x5b, 0x31, 0x35, 0x7e): 'kF5', (0x1b, 0x5b, 0x31, 0x37, 0x7e): 'kF6', (0x1b, 0x5b, 0x31, 0x38, 0x7e): 'kF7', (0x1b, 0x5b, 0x31, 0x39, 0x7e): 'kF8',
+    (0x1b, 0x5b, 0x32, 0x30, 0x7e): 'kF9', (0x1b, 0x5b, 0x32, 0x31, 0x7e): 'kF10', (0x1b, 0x5b, 0x32, 0x33, 0x7e): 'kF11', (0x1b, 0x5b, 0x32, 0x34, 0x7e): 'kF12',
+}
+
+
+def scanner_table(f):
+    """(step, byte) -> (next step, result, status) read off the if-chain of KeyEventScanner::next (constant byte tests only)"""
+    def enum_name(e):
+        x = f.s(f.strip_casts(e))
+        return x.get('n') if x and x['k'] == 'DeclRefExpr' else None
+
+    def byte_consts(cond):
+        cs = f.s(f.strip_casts(cond))
+        if cs['k'] == 'BinaryOperator' and cs.get('op') == '||':
+            a, b = byte_consts(cs['ch'][0]), byte_consts(cs['ch'][1])
+            return None if a is None or b is None else a | b
+        if cs['k'] == 'BinaryOperator' and cs.get('op') == '==':
+            for l, r in ((cs['ch'][0], cs['ch'][1]), (cs['ch'][1], cs['ch'][0])):
+                if f.path(l) == 'byte' and f.s(f.strip_casts(r)) is not None and f.s(f.strip_casts(r)).get('cv') is not None:
+                    return {f.s(f.strip_casts(r))['cv']}
+        return None
+    trans, dup = {}, []
+
+    def walk_state(body, S):
+        st = f.s(body)
+        if st['k'] == 'CompoundStmt':
+            for c in st['ch']:
+                walk_state(c, S)
+            return
+        if st['k'] != 'IfStmt':
+            return
+        cs = byte_consts(st['cond'])
+        asg, ret = {}, None
+        for x in f.walk(st['then']):
+            sx = f.stmts[x]
+            if sx['k'] == 'BinaryOperator' and sx.get('op') == '=':
+                asg[f.path(sx['ch'][0])] = enum_name(sx['ch'][1]) or f.path(sx['ch'][1])
+            if sx['k'] == 'ReturnStmt' and sx.get('val') is not None:
+                ret = enum_name(sx['val'])
+        if cs is not None:
+            for c in cs:
+                if (S, c) in trans:
+                    dup.append((S, c))      # an earlier branch already takes this byte: this one is dead
+                else:
+                    trans[(S, c)] = (asg.get('step_'), asg.get('result_'), ret, st['l'])
+        if st.get('else') is not None:
+            walk_state(st['else'], S)
+
+    def top(sid):
+        st = f.s(sid)
+        if st['k'] == 'CompoundStmt':
+            for c in st['ch']:
+                top(c)
+        elif st['k'] == 'IfStmt':
+            cs = f.s(f.strip_casts(st['cond']))
+            if cs['k'] == 'BinaryOperator' and cs.get('op') == '==' and f.path(cs['ch'][0]) == 'step_':
+                walk_state(st['then'], enum_name(cs['ch'][1]))
+            if st.get('else') is not None:
+                top(st['else'])
+    top(f.body)
+    return trans, dup
+
+
+def r9(ctx, prog):
+    ctx.rule('C13.R9', 'A11 key decoding table: the transition table read off KeyEventScanner::next maps the reference encodings of the editing keys (xterm/VT220) '
+             'to the matching key results; each intermediate step is named after the byte prefix it has consumed; an unsure step sets only step_, a decided key only result_; '
+             'anything else resets to kNone and fails', floor=30)
+    f = prog.fn1('tbox::terminal::KeyEventScanner::next')
+    trans, dup = scanner_table(f)
+    if len(trans) < 30:
+        raise AnalysisBroken('KeyEventScanner::next: only %d constant-byte transitions recognised' % len(trans))
+    for (S, b), (nxt, res, status, line) in sorted(trans.items(), key=str):
+        where = '%s:%d' % (f.file.replace('/repo/', ''), line)
+        if status == 'kUnsure':
+            want = ('k' if S == 'kNone' else S) + '%02x' % b
+            ok = nxt == want and res is None
+            ctx.ob('C13.R9', 'next|%s+%02x' % (S, b), ok, 'step %s on byte %02x goes to %s' % (S, b, nxt) if ok else
+                   'step %s on byte %02x goes to %s (result %s): the step reached must be the consumed prefix %s and no result may be set yet' % (S, b, nxt, res, want), where=where)
+        elif status == 'kEnsure':
+            ok = res is not None and nxt is None
+            ctx.ob('C13.R9', 'next|%s+%02x' % (S, b), ok, 'step %s on byte %02x decides %s' % (S, b, res) if ok else
+                   'a decided key must set result_ and leave step_ alone (step %s, byte %02x: step_=%s result_=%s)' % (S, b, nxt, res), where=where)
+        else:
+            ctx.ob('C13.R9', 'next|%s+%02x' % (S, b), False, 'transition returns %s' % status, where=where)
+    for S, b in dup:
+        ctx.ob('C13.R9', 'next|dup %s+%02x' % (S, b), False, 'byte %02x is tested twice in step %s: the second branch is dead' % (b, S), where=f.loc(f.body))
+    # reference sequences
+    for seq, want in sorted(KEY_REF.items()):
+        S, got = 'kNone', None
+        for i, b in enumerate(seq):
+            t = trans.get((S, b))
+            if t is None:
+                got = 'fail at byte %d' % i
+                break
+            nxt, res, status, line = t
+            if status == 'kEnsure':
+                got = res if i == len(seq) - 1 else 'decided early (%s after %d bytes)' % (res, i + 1)
+                break
+            S = nxt
+        else:
+            got = 'still unsure'
+        ctx.ob('C13.R9', 'ref|%s' % ' '.join('%02x' % b for b in seq), got == want, 'decodes to %s' % want if got == want else
+               'the sequence %s must decode to %s, the table gives: %s' % (' '.join('%02x' % b for b in seq), want, got), where=f.loc(f.body))
+    # fall-through: reset and fail
+    rets = [r for r in q.returns(f) if f.enclosing(r['i'], ('IfStmt',)) is None]
+    okf = len(rets) == 1 and (f.s(f.strip_casts(rets[0]['val'])) or {}).get('n') == 'kFail' and \
+        any((f.s(f.strip_casts(rhs)) or {}).get('n') == 'kNone' and f.enclosing(a['i'], ('IfStmt',)) is None for a, rhs in q.assigns(f, 'step_'))
+    ctx.ob('C13.R9', 'next|fallthrough', okf, 'an unexpected byte resets step_ to kNone and returns kFail', where=f.loc(rets[0]['i'] if rets else f.body))
+
+
 def run(ctx):
     prog = extract('ALL' if ctx.tier == 'thorough' else scope_units())
     ctx.guard(r1, ctx, prog)
@@ -389,6 +505,7 @@ def run(ctx):
     ctx.guard(r5, ctx, prog)
     ctx.guard(r6, ctx, prog)
     ctx.guard(r7, ctx, prog)
+    ctx.guard(r9, ctx, prog)
     ctx.guard(harden.run, ctx, prog, 'C13.R8', input_entries(prog),
               lambda g: g.file.startswith(MODULES + '/terminal/') or g.file.startswith(MODULES + '/util/'), 'terminal input path')
     return prog
